@@ -27,6 +27,8 @@ Definition seg_name (id : Z) : list Z :=
   else if id =? 26 then [114; 111; 111; 116]
   else if id =? 50 then []
   else if (101 <=? id) && (id <=? 140) then flat_map (fun _ => [195; 169]) (seq 0 (Z.to_nat (id - 100)))
+  else if (200 <=? id) && (id <=? 225) then [83; 101; 103; 65 + (id - 200)]            (* "Seg" + capital *)
+  else if (230 <=? id) && (id <=? 255) then [32; 115; 101; 103; 97 + (id - 230); 32]   (* " seg" + letter + " " *)
   else [].
 
 (* ---- decoding ---- *)
